@@ -35,5 +35,19 @@ theorem C17_code_agrees :
    (by simp only [bridge_Zobrist_board_state_hash_with_push_pull_state]; exact RsAgree.zobrist_with_pps),
    (by simp only [bridge_Zobrist_from_piece_board]; exact RsAgree.from_piece_board_eq)⟩
 
+theorem C17_code_thash (s : GameState) (r : BB)
+    (h : GameState_transposition_hash s = .ok r) : r = s.transpositionHash := by
+  simp only [bridge_GameState_transposition_hash] at h
+  exact (C17_value_of_ok (RsAgree.transposition_hash_eq s) h).2
+
+/-- **C17 for the code as it is now** (content of one square): two play states that differ in the content of
+exactly one square get different values from the regenerated `transposition_hash` -/
+theorem C17_code_content (b b' : Board) (hb : b.AtMostOne) (hb' : b'.AtMostOne) (q : Nat) (hq : q < 64)
+    (hsame : ∀ i, i < 64 → i ≠ q → b.contentAt i = b'.contentAt i)
+    (hdiff : b.contentAt q ≠ b'.contentAt q) (side : Bool) (n : Nat) (pp : PlayPhase) (x x' : BB)
+    (hx : GameState_transposition_hash (mkPlay b side n pp) = .ok x)
+    (hx' : GameState_transposition_hash (mkPlay b' side n pp) = .ok x') : x ≠ x' := by
+  rw [C17_code_thash _ x hx, C17_code_thash _ x' hx']
+  exact C17_content b b' hb hb' q hq hsame hdiff side n pp
 
 end Arimaa
